@@ -22,22 +22,37 @@ def _fields(line):
 
 
 def _strip_obs(case):
-    return ' '.join(kv for kv in case.split() if not kv.startswith(('in=', 'obs=', 'term=', 'late=')))
+    return ' '.join(kv for kv in case.split() if not kv.startswith(('in=', 'obs=', 'term=', 'after=')))
 
 
 def proj_rate(d):
-    return (flag(d), d.get('out'), d.get('ans'), d.get('late'))
+    return (flag(d), d.get('out'), d.get('ans'))
 
 
 def check(ctx):
     rows = R.run_kind(ctx, 'rate', shards=min(R.NCPU, 4))
-    eq = [r for r in rows if 'lim=native-rt' not in r[0]]
-    rt = [r for r in rows if 'lim=native-rt' in r[0]]
+    eq = [r for r in rows if 'op=native-rt' not in r[0]]
+    rt = [r for r in rows if 'op=native-rt' in r[0]]
     R.compare(ctx, eq, proj_rate, 'C20 logical composition of the native limiter / ulule limiter: delivered items, terminal, store answers',
               nontrivial=lambda c, gd: gd.get('out', '-') not in ('-', 'C'))
 
     # real time: the Lean acceptor's verdict on what was observed
-    pending = [(c, g, l) for c, g, l in rt if not l.split()[2:3] == ['accept=t']]
+    pending, hard = [], []
+    lost_completion = 0
+    for c, g, l in rt:
+        if l.split()[2:3] == ['accept=t']:
+            continue
+        why = _fields(l).get('why', '?').split('(')[0]
+        cf = _fields(c)
+        if why == 'quota':
+            pending.append((c, g, l))
+        elif why == 'terminal' and cf.get('end') == 'C' and cf.get('term') == '-':
+            # the known finding (completion lost by a tick inside the completion) seen under real concurrency;
+            # re-observed: a limiter that never completes is rejected every time
+            lost_completion += 1
+            pending.append((c, g, l))
+        else:
+            hard.append((c, g, l))
     retried = len(pending)
     reasons = {}
     for c, g, l in pending:
@@ -63,25 +78,28 @@ def check(ctx):
         ctx.distinct.add(hash(R.case_key(_strip_obs(c))))
         if len(ctx.samples) < 6 and ctx.evaluations % 97 == 1:
             ctx.samples.append({'case': c[:600], 'impl': 'observed trace (in=/obs=/term= in the case line)', 'model': l})
-    ctx.traces_validated += len(rt) - len(pending)
+    ctx.traces_validated += len(rt) - len(pending) - len(hard)
     by_why = {}
-    for c, g, l in pending:
+    for c, g, l in hard:
+        history.setdefault(c.split()[1], [l]); last.setdefault(c.split()[1], c)
+    for c, g, l in pending + hard:
         by_why.setdefault(_fields(l).get('why', '?').split('(')[0], []).append((c, g, l))
     for why, lst in list(by_why.items())[:4]:
         c, g, l = min(lst, key=lambda t: len(t[0]))
         cid = c.split()[1]
-        ctx.violation(f'C20 native limiter in real time: observed trace rejected by the proved acceptor ({why}) in {ATTEMPTS} observations out of {ATTEMPTS} ({len(lst)} cases)',
-                      f'# C20: the real native limiter produced a trace the acceptor rejects (clause: {why}); verdicts of the {ATTEMPTS} observations: '
+        ctx.violation(f'C20 native limiter in real time: observed trace rejected by the proved acceptor ({why}) in every observation ({len(history.get(cid, []))} of {len(history.get(cid, []))}; {len(lst)} cases)',
+                      f'# C20: the real native limiter produced a trace the acceptor rejects (clause: {why}); verdicts of the observations: '
                       f'{[h.split()[2:] for h in history.get(cid, [])]}\n# the case line carries the last observation (in= emitted items k:v:t0:t1, obs= passed items k:v@ts, term=)\n'
                       f'{last.get(cid, c)}\n# model/acceptor: {l}\n# replay (re-observes): ./check C20 --replay <this file>\n')
     return dict(
+        search=lambda ctx, out: any(not v[2] for v in ctx.violations),   # a concrete failing input found by the runs explains a composition row that no longer checks
         rule='kind=rate. native-log: the composition of native/operator.go rebuilt from the real GroupBy/MergeMap/WindowWhen/Map(Take)/MergeAll with a hand-fired boundary, '
              'timelines over {item k0, item k1, tick k0, tick k1} exhaustive to length 4 (quick) / 6 (thorough) x quota {0,1,2} x ending {C,E,none} x {sync,hot}, plus seeded timelines (<=45 events, <=4 keys, quota<=4): output EQUAL to the model. '
              'ulule: real operator over a deterministic history-driven store (limit m, epoch p calls, optional failing call), inputs exhaustive to length 4/6 over 2 keys x m{0,1,2} x p{1,3} x failAt{-,0,2} x ending x {sync,hot} + seeded: output and store answers EQUAL to the model. '
              'native-rt: the real NewRateLimiter (its own Interval), quota 0..3, window 2..5 ms, 1..3 keys, profiles burst/steady/sparse/dense, sync and async source, endings C/E/none; '
              'the observed (key,value,timestamp) trace is evaluated by the Lean acceptor (per-key subsequence, quota bound n*(floor(L/w)+2) on every span, first-window items of every key passed, terminal); '
-             f'a rejected observation is re-observed up to {ATTEMPTS - 1} more times and reported only if rejected every time',
+             f'an observation rejected on the quota clause (stalled ticker) or showing the known lost completion is re-observed up to {ATTEMPTS - 1} more times and reported if rejected every time; any other rejection is reported at once',
         assumptions=['real-time tie = acceptance of observed traces (not equality): a limiter that lets through fewer items than the model is accepted as far as order/quota/terminal are concerned; the "fresh" clause (first-window items of every key pass) is the only lower bound checked in real time',
                      'the quota bound is sound for windows of length >= w; a ticker delivered late by a window or more (process stall) yields shorter real windows and can make a correct limiter exceed it: such observations are repeated, see quota_retries',
                      'time.Ticker fires no earlier than asked (used by the fresh clause)'],
-        extra={'realtime_cases': len(rt), 'quota_retries': retried, 'retry_reasons': reasons, 'rejected_after_retries': len(pending)})
+        extra={'realtime_cases': len(rt), 'quota_retries': retried, 'retry_reasons': reasons, 'lost_completion_observed': lost_completion, 'rejected_after_retries': len(pending), 'rejected_at_once': len(hard)})
